@@ -491,12 +491,13 @@ def parseCond (keyIdx : String → Nat) (s : String) : Option (Cond Pat) :=
   | _ => none
 
 open C12LeafFilter in
-/-- `id/v0/v1/…`: the series' values for the metric's tag keys, by position -/
+/-- `id/v0/v1/…`: the series' values for the metric's tag keys, by position (`~`: the series does
+not carry that tag key) -/
 def parseSeries (s : String) : Option (Series String) :=
   match s.splitOn "/" with
   | id :: vals =>
     match id.toNat? with
-    | some id => some ⟨id, (List.range vals.length).zip vals⟩
+    | some id => some ⟨id, ((List.range vals.length).zip vals).filter (fun p => p.2 != "~")⟩
     | none => none
   | [] => none
 
